@@ -25,6 +25,11 @@ theorem tables_pinned : Gen.lexTables = LexTables.std := by decide
 pinned commit) or hexadecimal test first (the repair) -/
 theorem numcfg_known : Gen.numCfg = NumCfg.asIs ∨ Gen.numCfg = NumCfg.repaired := by decide
 
+/-- … and on /repo's current source it is the repaired chain (fix 01cf413): the theorems stated for
+`NumCfg.repaired` below (`hex_roundtrip`, `hex_literal`) are theorems about the code as it is; a regression of
+parser.go to the float-first chain breaks this theorem -/
+theorem numcfg_is_repaired : Gen.numCfg = NumCfg.repaired := by decide
+
 /-! ## Integer spellings -/
 
 /-- a case choice per hexadecimal digit (missing choices = lower case) -/
@@ -133,6 +138,9 @@ theorem hex_roundtrip_partial_code (n : Nat) (hn : n < 2 ^ 63) (hnoE : ∀ d ∈
 /-- once parser.go asks the hexadecimal question first, the full round trip holds for the code's chain -/
 theorem hex_roundtrip_code_of_repaired (h : Gen.numCfg = NumCfg.repaired) : hex_roundtrip_goal Gen.numCfg :=
   h ▸ hex_roundtrip
+
+/-- **hex_roundtrip_code**: the full hexadecimal round trip for the chain regenerated from parser.go on this run -/
+theorem hex_roundtrip_code : hex_roundtrip_goal Gen.numCfg := hex_roundtrip_code_of_repaired numcfg_is_repaired
 
 /-- **hex_witness**: under the chain of the code as it is, `0xE` (= 14) is sent to ParseFloat, `0x1e5` too,
 and `0X1F` goes to ParseInt base 10, which rejects it; the repaired chain reads all three. -/
